@@ -406,7 +406,7 @@ def h_rel(t1: str, t2: str, t3: str, y1: str, y2: str, y3: str, dc: bool, same: 
 POOL402 = ['antonym', 'other', 'also', 'hypernym', 'domain_topic', 'exemplifies', 'zzz', '']
 
 
-def h_w402(t1: str, t2: str, k2: int, k3: int) -> bool:
+def h_w402(t1: str, t2: str, k2: int, k3: int, dup: bool) -> bool:
     """
     pre: len(t1) == 1 and len(t2) == 1
     pre: 0 <= k2 < 8 and 0 <= k3 < 3
@@ -414,20 +414,20 @@ def h_w402(t1: str, t2: str, k2: int, k3: int) -> bool:
     """
     t3 = 'a'
     y1, y2, y3 = POOL402[rt.part(8)[0]], _pick(POOL402, k2), _pick(['also', 'zzz', 'antonym'], k3)
+    # dup: a synset reuses the id of sense t (a cross-kind duplicate, reported by E101): a
+    # relation to that id is invalid if its type is invalid for either kind of target
     lex = _lex([_entry('e', 'w', [_sense('s', 'a', [_rel(t1, y1), _rel(t2, y2)]),
                                   _sense('t', 'b')])],
-               [_synset('a'), _synset('b', relations=[_rel(t3, y3)])])
+               [_synset('a'), _synset('b', relations=[_rel(t3, y3)])] + ([_synset('t')] if dup else []))
     got = _run(lex, 'W402')
     if got is None:
         return False
+    syn_ids = SYN_IDS + (['t'] if dup else [])
     bad_s = []
     for t, y in ((t1, y1), (t2, y2)):
-        if _has(SEN_IDS, t):
-            if y not in K.SENSE_RELATIONS:
-                bad_s.append((t, y))
-        elif _has(SYN_IDS, t):
-            if y not in K.SENSE_SYNSET_RELATIONS:
-                bad_s.append((t, y))
+        if (_has(SEN_IDS, t) and y not in K.SENSE_RELATIONS) or \
+                (_has(syn_ids, t) and y not in K.SENSE_SYNSET_RELATIONS):
+            bad_s.append((t, y))
     bad_ss = [(t3, y3)] if y3 not in K.SYNSET_RELATIONS else []
     want = (['s'] if bad_s else []) + (['b'] if bad_ss else [])
     ok = _keys_match(got, want)
